@@ -1,6 +1,9 @@
 import HcipyVerif.Model.Proto
 import HcipyVerif.Model.FieldProg
 import HcipyVerif.Model.FourierSwitch
+import HcipyVerif.Model.FourierConfig
+import HcipyVerif.Driver.C19Ref
+import HcipyVerif.Gen.FieldDispatch
 
 /-!
 Line-protocol front end of the C19 model.
@@ -31,6 +34,13 @@ C19 select <cpu> <mkl:0|1> <fftw:0|1> <m1,m2,…|-> <threads|-> <big:0|1> <dtype
 C19 mft <pre:0|1> <alloc:0|1> <call>*      call := <f|b>.<64|128>; one MFT object, provenance kernels
       answer `ok <state>/<result> …` per call, state = m<64|128|->i<64|128|->k<0|1> (k: `keyedB`), result = fresh | stale
 C19 nft <pre:0|1> <call>*                  answer `ok f<0|1>b<0|1>/<fresh|stale> …`
+C19 mftk <pre:0|1> <alloc:0|1> [x…] [y…] [u…] [v…] [w…] [wout…] <call>*     call := <f|b>.<64|128>.<j>
+      one MFT object over the *concrete* kernel `FourierConfig.mftKern` (C01's matrices and the two gemm stages, values = formal
+      phase sums), reused over the script of unit impulses at flat index j; answer `ok <r0> | <r1> | …`, r = `;`-separated samples,
+      each a `+`-separated list of terms `c:t:r` (= c·exp(2πi·t)·exp(i·r))
+C19 dispatch                                the regenerated dispatch table `Gen/FieldDispatch.lean` against the wrapping policies:
+      answer `ok <entries> <attributes> <entries not handled as predicted|-> <attributes missing on the wrapper|-> <elementwise entries> <of those keeping the grid> <old>/<new> per entry`
+C19 ref <good|badslice|badarray> <op>*      the reference model `Model/FieldRef.lean` (buffers, windows, grid objects), see Driver/C19Ref.lean
 ```
 Answer of `run`: `ok O <obs>* | N <obs>* | DO <obs>* | DN <obs>* | A <0|1> <i|->` — the per-statement
 observations of the subclass route and of the wrapper route, then the final read-out of every variable under
@@ -331,8 +341,43 @@ def nftTrace (pre : Bool) (script : List (Dir × CPrec × (Nat × CPrec))) : Lis
   let flags := List.zipWith (fun r f => if r == f then "fresh" else "stale") rs fs
   List.zipWith (fun st fl => s!"{st}/{fl}") (nftStates pre {} sc) flags
 
+/-! ### the switch model over the concrete kernel of C01's MatrixFourierTransform model -/
+open HcipyVerif.Fft in
+def showPTerm (x : Term) : String := s!"{showRat x.c}:{showRat x.t}:{showRat x.r}"
+
+open HcipyVerif.Fft in
+def showPS (p : PSum) : String :=
+  match p.terms with
+  | [] => "0"
+  | ts => "+".intercalate (ts.map showPTerm)
+
+def parseKCall? (s : String) : Option (Dir × CPrec × Nat) :=
+  match s.splitOn "." with
+  | [d, p, j] => do
+    let d ← match d with | "f" => some Dir.fwd | "b" => some Dir.bwd | _ => none
+    let p ← match p with | "64" => some CPrec.c64 | "128" => some CPrec.c128 | _ => none
+    let j ← parseNat? j
+    pure (d, p, j)
+  | _ => none
+
+open HcipyVerif.Fft HcipyVerif.FourierConfig in
+/-- `mftRun` of the concrete kernel on a script of unit impulses; all output samples of every call -/
+def mftkRun (pre alloc : Bool) (x y u v w wOut : List Rat) (script : List (Dir × CPrec × Nat)) : List (List PSum) :=
+  let K := mftKern PSum.rad PSum.conj x.length y.length u.length v.length (coordOf x) (coordOf y) (coordOf u) (coordOf v)
+    (Weights.ofRats w) (Weights.ofRats wOut)
+  let rs := mftRun K pre alloc (script.map fun (d, p, j) => (d, p, PSum.impulse j))
+  (rs.zip script).map fun (r, (d, _, _)) =>
+    (List.range (match d with | .fwd => v.length * u.length | .bwd => y.length * x.length)).map r
+
 def stepFourier : List String → Option String
   | "select" :: rest => stepSelect rest
+  | "mftk" :: pre :: alloc :: x :: y :: u :: v :: w :: wo :: calls => do
+    let pre ← parseBit? pre; let alloc ← parseBit? alloc
+    let x ← parseRatList? x; let y ← parseRatList? y; let u ← parseRatList? u; let v ← parseRatList? v
+    let w ← parseRatList? w; let wo ← parseRatList? wo
+    let sc ← calls.mapM parseKCall?
+    let rs := mftkRun pre alloc x y u v w wo sc
+    pure ("ok " ++ " | ".intercalate (rs.map fun r => ";".intercalate (r.map showPS)))
   | "mft" :: pre :: alloc :: calls => do
     let pre ← parseBit? pre; let alloc ← parseBit? alloc; let sc ← parseScript? calls
     pure ("ok " ++ " ".intercalate (mftTrace pre alloc sc))
@@ -366,6 +411,11 @@ def step (st : St) : List String → St × String
       let ag := if agree? st.grids prog then "1" else "0"
       let at_ := match disagreeAt st.grids prog with | some i => toString i | none => "-"
       (st, s!"ok O {so} | N {sn} | DO {dOld} | DN {dNew} | A {ag} {at_}")
+  | ["dispatch"] => (st, HcipyVerif.FieldDispatch.report HcipyVerif.Gen.FieldDispatch.table HcipyVerif.Gen.FieldDispatch.attributes)
+  | "ref" :: toks =>
+    match HcipyVerif.Driver.C19Ref.stepRef toks with
+    | some r => (st, r)
+    | none => (st, "bad-op")
   | toks =>
     match stepFourier toks with
     | some r => (st, r)
